@@ -1,7 +1,12 @@
 import PpciVerif.Model.Proto
 import PpciVerif.Model.WasmRt
 import PpciVerif.Spec.WasmInt
-/-! Line-protocol driver for C22 (integer runtime helpers of ppci/wasm/execution/runtime.py).
+import PpciVerif.Spec.WasmRun
+/-! Line-protocol driver for C22.
+
+Whole-module requests `(run FUEL MODULE (calls …))` are answered by the reference interpreter
+`Spec.Wasm` (engine and format: `PpciVerif/Spec/WasmRun.lean`, `PpciVerif/Spec/WasmParse.lean`).
+The remaining requests address the integer runtime helpers of ppci/wasm/execution/runtime.py:
 
 Model ops:  i32_rotl v c | i64_rotl v c | i32_rotr v c | i64_rotr v c
             i32_clz v | i64_clz v | i32_ctz v | i64_ctz v | i32_popcnt v | i64_popcnt v
@@ -19,6 +24,7 @@ def iS (z : Int) : String := toString z
 def nS (n : Nat) : String := toString n
 
 def step (line : String) : String :=
+  if line.startsWith "(" then Spec.WasmRun.step line else
   match words line with
   | [op, a, b] =>
     match int? a, int? b with
